@@ -24,10 +24,11 @@ func sanitizeSelectionSet(ctx *PlanningContext, selectionSet ast.SelectionSet, i
 			}
 			result = addSelectionSetToSanitizedResult(result, s)
 		case *ast.FragmentSpread:
+			// every spread gets its own nodes: sanitizing adds helper fields to them in place
 			inlineFragment := &ast.InlineFragment{
 				TypeCondition:    s.Definition.TypeCondition,
 				Directives:       s.Directives,
-				SelectionSet:     s.Definition.SelectionSet,
+				SelectionSet:     copySelectionSet(s.Definition.SelectionSet),
 				ObjectDefinition: s.ObjectDefinition,
 				Position:         s.Position,
 			}
@@ -188,4 +189,30 @@ func fieldResponseKey(f *ast.Field) string {
 		return f.Alias
 	}
 	return f.Name
+}
+
+// copySelectionSet copies the selection nodes of a fragment definition (not their arguments or directives)
+func copySelectionSet(selectionSet ast.SelectionSet) ast.SelectionSet {
+	if selectionSet == nil {
+		return nil
+	}
+	res := make(ast.SelectionSet, 0, len(selectionSet))
+	for _, sel := range selectionSet {
+		switch s := sel.(type) {
+		case *ast.Field:
+			c := *s
+			c.SelectionSet = copySelectionSet(s.SelectionSet)
+			res = append(res, &c)
+		case *ast.InlineFragment:
+			c := *s
+			c.SelectionSet = copySelectionSet(s.SelectionSet)
+			res = append(res, &c)
+		case *ast.FragmentSpread:
+			c := *s
+			res = append(res, &c)
+		default:
+			res = append(res, sel)
+		}
+	}
+	return res
 }
